@@ -38,8 +38,8 @@ Section cands.
     | _ =>
         match class_of_tag reg (ntag n) with
         | Some kt => if ty_mem (TClass (c_name kt)) (fst own) then ([TClass (c_name kt)], rec_ok)
-                     else (fst own, RE [nmark n] [] (snd own))
-        | None => (fst own, RE [nmark n] [] (snd own))
+                     else (fst own, RE [nmark n] [] [])
+        | None => (fst own, RE [nmark n] [] [])
         end
     end.
 
@@ -71,8 +71,8 @@ Section cands.
            | _ =>
                match class_of_tag reg (ntag n) with
                | Some kt => if ty_mem (TClass (c_name kt)) found then Ok ([TClass (c_name kt)], rec_ok)
-                            else Ok (found, RE [nmark n] [] causes)
-               | None => Ok (found, RE [nmark n] [] causes)
+                            else Ok (found, RE [nmark n] [] [])
+               | None => Ok (found, RE [nmark n] [] [])
                end
            end
        end).
@@ -255,7 +255,11 @@ Qed.
 Definition bfix (l : list ty) : list ty := if ty_mem TBool l && ty_mem TBoolFix l then ty_remove TBoolFix l else l.
 Lemma rec_union_eq rec ts m :
   rec_union rec ts m = (r <- rec_members rec ts [] [] ;;
-                        match bfix (fst r) with [_] => Ok (bfix (fst r), rec_ok) | _ => Ok (bfix (fst r), RE [m] [] (snd r)) end).
+                        match bfix (fst r) with
+                        | [] => Ok (bfix (fst r), RE [m] [] (snd r))
+                        | [_] => Ok (bfix (fst r), rec_ok)
+                        | _ => Ok (bfix (fst r), RE [m] [] [])
+                        end).
 Proof. reflexivity. Qed.
 Theorem rec_union_perm rec ts ts' m tys e : Permutation ts ts' -> rec_union rec ts m = Ok (tys, e) ->
   exists tys' e', rec_union rec ts' m = Ok (tys', e') /\ (forall t, In t tys <-> In t tys') /\
